@@ -1023,7 +1023,8 @@ def run(chk):
         "C01_params_object: the per-location object schema accepts exactly {all required present, only declared names, each "
         "value valid}",
         "C01_pattern_merge_sound: anchored, width-1 repeats, single repeat or multi-part distribution (exact search + range), "
-        "new pattern implies old pattern and length within bounds; witnesses F5, F28, F32, F35, F36",
+        "new pattern implies old pattern and length within bounds; C01_pattern_merge_keeps_some: the re-rendered pattern stays "
+        "satisfiable; witnesses F5, F28, F32, F35, F36",
     ]
     chk.partial += [
         "readOnly inside the equivalence theorem: the fragment of C01_nullable_exact excludes readOnly properties (they have "
